@@ -48,6 +48,11 @@ def check_pairing(ctx, f, name, cfg, X, R, out, d, ql, f_exp, it):
         ctx.ob(R2, f"{name} {cfg}: pairing", False, f"{msg} ({cfg})", where=where, construct=f"{name}: {construct}",
                loc=f.loc(), detail=detail)
 
+    if ctx.scenario.startswith("zero"):
+        # provenance is read off the NAMES of the symbols in each array; with symbols specialised to 0 (an alternative scenario that
+        # exercises a special-input fast path) the names are gone although the data flow is unchanged: judged on generic values only
+        ctx.ob(R2, f"{name} {cfg}: pairing", True, generic_only=True)
+        return
     U, s, V = out
     svds = [e for e in d.events if e[0] == "svd"]
     if len(svds) != 1:
